@@ -325,7 +325,8 @@ pub fn run(ctx: &Ctx) {
         n3,
         || {
             (
-                any::<u16>(),
+                // the first 12 captured datagrams are the handshakes and first rotation messages: half of the cases
+                prop_oneof![0u16..12, any::<u16>()],
                 0usize..12,
                 prop_oneof![Just(Source::Original), Just(Source::AnotherPeer), Just(Source::Unknown)],
                 any::<bool>(),
